@@ -11,7 +11,8 @@ From RU Require Import Base.Prelude Base.Utf8 Base.Utf8Facts Model.AsciiSet Gen.
   Proofs.C06_Path Proofs.C06_Segments Proofs.C04_ParseTotal Proofs.C03_ReachParts
   Proofs.C05_ParseUI Proofs.C05_ParseAll Proofs.C05_CompSteps2 Proofs.C05_CompReach Proofs.C05_ParseEx
   Proofs.C03_WF Proofs.C06_Suffix Proofs.C05_BaseOk Proofs.C05_CompSteps3 Proofs.C05_FinEx Proofs.C05_Alphabet
-  Proofs.C05_AuthOfs Proofs.C05_AuthParse Proofs.C05_HostText Proofs.C15_Ser Proofs.C05_Qpm Proofs.C05_ReachF Proofs.C05_FinEx2.
+  Proofs.C05_AuthOfs Proofs.C05_AuthParse Proofs.C05_HostText Proofs.C15_Ser Proofs.C05_Qpm Proofs.C05_ReachF Proofs.C05_FinEx2
+  Proofs.C05_HostClause.
 From RU Require Import Model.FormUrlencoded Model.QueryPairs.
 
 (* ================= 1. encoder alphabet ================= *)
@@ -676,6 +677,30 @@ Print Assumptions C05_reachable_in_Q.
    out of mutator steps) gives "http://o.x:81/w%20v#f%60", with alphabet_ok and sharp *)
 Example C05_reachF_inhabited : finF_example_stmt.
 Proof. exact finF_example. Qed.
+
+(* ================= 6. the host clause (last sentence of the property text) along mutator histories ================= *)
+(* HostSpQ hp hd Q (Proofs/C05_HostClause.v): every host other than the empty one that hp (Host::parse, the parser of
+   special schemes) returns, and every address value, is displayed as a text that satisfies Q.
+   HC Q u: if the scheme of u is special, what Url::host_str() returns satisfies Q.
+   GHistF: histories of step_gate3 steps of the 19 mutators and query_pairs_mut sessions.
+   For Q := "lower-case ASCII without forbidden host code points" HostSpQ is C09_domain (domains, relative to IdnaOK)
+   plus the address printers (digits, '.', lower-case hex digits, ':', '[', ']').
+   Proved: HC is an invariant of such histories - a special URL never gets its host from Host::parse_opaque, and the
+   scheme class only goes from special to special.  GAP: the start record - HC for parse / join results is not proved
+   here (it needs the position of the host text in the result of every parser arm). *)
+Theorem C05_host_clause_history : forall dbg hp hpo hd Q u u',
+  HostSpQ hp hd Q -> HostWf hp hpo hd -> IpDisp hd -> HostOK hp hpo hd -> IpOKv hd ->
+  GHistF dbg hp hpo hd u u' -> FInv dbg u -> HC Q u -> FInv dbg u' /\ HC Q u'.
+Proof. intros dbg hp hpo hd Q u u' HQ HW HI HOK HV. exact (hc_history dbg hp hpo hd Q HQ HW HI HOK HV u u'). Qed.
+Check C05_host_clause_history : forall dbg hp hpo hd Q u u',
+  HostSpQ hp hd Q -> HostWf hp hpo hd -> IpDisp hd -> HostOK hp hpo hd -> IpOKv hd ->
+  GHistF dbg hp hpo hd u u' -> FInv dbg u -> HC Q u -> FInv dbg u' /\ HC Q u'.
+Print Assumptions C05_host_clause_history.
+
+(* the hypotheses are met (Proofs/C05_FinEx2.v): Q = "inside 0x21..0x7E" for the example host functions; parse
+   "http://h.x/a?q" satisfies FInv and HC, quirks set_host "o.x:81" is a gated step, the result has host text "o.x" *)
+Example C05_host_clause_inhabited : hc_example_stmt.
+Proof. exact hc_example. Qed.
 
 (* ================= non-vacuity ================= *)
 Definition ex_hp (s : list N) : result host := Ok (HDomain s).
